@@ -13,7 +13,7 @@ RULE = ("goal regions with 1..4 goal states x every subset of {position, orienta
 ANCHORS = ["GoalRegion.is_reached", "GoalRegion._harmonize_state_types", "PlanningProblem.goal_reached",
            "AngleInterval.contains", "Interval.contains"]
 REQUIRED = ["contract.GoalRegion.is_reached", "contract.PlanningProblem.goal_reached", "pos.rect", "pos.rect-rot",
-            "pos.circle", "pos.polygon", "pos.group", "pos.lanelets", "pos.rect-quarter-turn", "angle.len>pi", "angle.wrap", "state.PMState",
+            "pos.circle", "pos.polygon", "pos.group", "pos.lanelets", "pos.rect-quarter-turn", "pos.polygon-redefined-through-setter", "angle.len>pi", "angle.wrap", "state.PMState",
             "state.KSState", "state.MBState", "state.CustomState", "pm.vx<0", "value.int", "value.numpy",
             "on-boundary.time", "on-boundary.velocity", "on-boundary.position", "expected.True", "expected.False",
             "multi-goal-state", "requery-after.goal.translate_rotate", "requery-after.lanelet-goal",
@@ -50,8 +50,17 @@ def gen_goal_state(G, rng, ctx, fields):
         elif k == "circle":
             kw["position"] = Circle(rng.choice([1.0, 2.5, 5.0]), c)
         elif k == "polygon":
-            kw["position"] = Polygon(np.array([c, c + np.array([4.0, 0.0]), c + np.array([4.0, 3.0]),
-                                               c + np.array([0.0, 1.5])]))
+            verts = np.array([c, c + np.array([4.0, 0.0]), c + np.array([4.0, 3.0]), c + np.array([0.0, 1.5])])
+            if rng.random() < 0.35:
+                # the region was first given smaller / elsewhere, has answered a query, and was then re-defined through the
+                # public vertices setter: it is the polygon it is NOW
+                pg = Polygon(verts * 0.25 + np.array([-30.0, 12.0]))
+                pg.contains_point(np.array([0.0, 0.0]))
+                pg.vertices = verts
+                kw["position"] = pg
+                ctx.feature("pos.polygon-redefined-through-setter")
+            else:
+                kw["position"] = Polygon(verts)
         elif k == "group":
             kw["position"] = ShapeGroup([Rectangle(2.0, 1.0, c, 0.0), Circle(1.0, c + np.array([5.0, 0.0])),
                                          Polygon(np.array([c + np.array([0.0, 4.0]), c + np.array([2.0, 4.0]),
